@@ -33,7 +33,8 @@ RUNS = {"quick": 120_000, "thorough": 3_000_000}
 RULE = ("seeded histories: 2-3 operations (priorities 0..3, all started first, sometimes at different virtual times), 2-3 "
         "resources (each pre-emptable or not), then depth <=8 (quick) / <=14 (thorough) steps, ~70 % acquisitions biased "
         "towards resources somebody else holds (re-entrant and repeated attempts included), the rest release / complete / "
-        "abort (more often for operations that are blocked or waited on) / re-start of an ended id / watchdog.execute (priority "
+        "abort (more often for operations that are blocked or waited on) / re-start of an ended id / controller.advance at "
+        "its own virtual time (phase machinery, in an order unrelated to the start order) / watchdog.execute (priority "
         "or oldest strategy, optional time limit) / check_and_boost / clock; seeded families: ring, pre-emption, inheritance-then-retry, double wait, "
         "end-while-blocked-then-restart; after every "
         "step check_deadlock() is compared with a reference wait-for relation recomputed from the history and the real "
@@ -57,7 +58,8 @@ EXPECT_PROBES = ("blocked", "preempted", "reentrant", "ref_cycle", "ref_cycle_3"
                  "deadlock_handled", "victim_judged", "oldest_strategy_judged", "boost_applied", "stale_block_ambiguous",
                  "abort_while_waiting", "end_while_waited_on", "release_unrelated_while_waited_on",
                  "acquire_while_waiting", "timeout_kill", "complete_while_waiting", "restarted",
-                 "restarted_after_ending_blocked", "restarted_after_ending_waited_on", "preempted_while_waiting_for_it")
+                 "restarted_after_ending_blocked", "restarted_after_ending_waited_on", "preempted_while_waiting_for_it",
+                 "advanced", "oldest_judged_with_phase_order_different")
 
 OPS = ["A", "B", "C"]
 RES = ["r0", "r1", "r2"]
@@ -72,12 +74,13 @@ def gen(rng, tier, i):
     if rng.random() < 0.5:
         res = {r: False for r in res}
     same_prio = rng.random() < 0.35
+    strategy = rng.choice(["priority", "priority", "oldest"])
     pre = []
     for o in OPS[:nops]:
-        if pre and rng.random() < 0.5:
+        if pre and rng.random() < (0.85 if strategy == "oldest" else 0.5):
             pre.append(["clock", rng.choice([1.0, 5.0])])
         pre.append(["start", o, 1 if same_prio else rng.choice([0, 1, 2, 3])])
-    cfg = {"res": res, "strategy": rng.choice(["priority", "priority", "oldest"]),
+    cfg = {"res": res, "strategy": strategy,
            "limit": rng.random() < 0.15}
     depth = rng.randint(3, 8 if tier == "quick" else 14)
     ops = []
@@ -228,6 +231,20 @@ def gen(rng, tier, i):
     ops.extend(pending)
     if rng.random() < 0.5:
         ops.append(["wd"])
+    if rng.random() < (0.75 if strategy == "oldest" else 0.25):
+        # the phase machinery interleaved with the history: some operations move on (G0 -> G1, with `ready` also
+        # G1 -> S) at their own times, in an order unrelated to the order in which they were started
+        who = [o for o in OPS[:nops] if rng.random() < 0.7] or [rng.choice(OPS[:nops])]
+        rng.shuffle(who)
+        for o in who:
+            block = [["clock", rng.choice([1.0, 2.0, 7.0])]] if rng.random() < 0.8 else []
+            if rng.random() < 0.25:
+                block.append(["ready", o])
+            block.append(["adv", o])
+            if rng.random() < 0.2:
+                block.append(["adv", o])
+            j = rng.randint(0, max(0, len(ops) // 2)) if rng.random() < 0.5 else 0
+            ops[j:j] = block
     return {"config": cfg, "pre": pre, "ops": ops}
 
 
@@ -544,6 +561,22 @@ def run(plan, k):
                     k.probe("boost_applied")
             elif name == "check":
                 pass
+            elif name in ("adv", "ready"):
+                o = op[1]
+                if o not in ref.live:
+                    continue
+                actor = o
+                if name == "ready":
+                    ctxs[o].resources_acquired = True        # what a stepping-API caller sets before leaving G1
+                    continue
+                out = call(ctrl.advance, ctxs[o], tracer=tr)
+                if out.kind != "ok":
+                    k.violation("exact", "advance_" + out.kind, "advance", str(out.exc)[:200])
+                    continue
+                k.ev("adv", [o, out.value.name, ctxs[o].phase.name])
+                if out.value.name == "PASSED":
+                    k.probe("advanced")
+                cls = "advance"
             elif name == "wd":
                 # the cycle the watchdog is about to see (check_deadlock is deterministic and side-effect free)
                 before = judge(step_i, "pre_watchdog", None, tr)
@@ -578,6 +611,9 @@ def run(plan, k):
                                             f"{[(o, snapshot_live[o]['prio0']) for o in before]}")
                         else:
                             k.probe("oldest_strategy_judged")
+                            by_phase = min(before, key=lambda o_: ctxs[o_].phase_entered_at)
+                            if snapshot_live[by_phase]["t0"] != min(snapshot_live[o_]["t0"] for o_ in before):
+                                k.probe("oldest_judged_with_phase_order_different")
                             if snapshot_live[v]["t0"] != min(snapshot_live[o]["t0"] for o in before):
                                 k.violation("victim", "wrong_victim", "oldest",
                                             f"victim {v}; start times {[(o, snapshot_live[o]['t0'] - 1.7e9) for o in before]}")
